@@ -460,6 +460,37 @@ impl<'u> Driver<'u> {
         }
     }
 
+    /// store_event while every LMDB reader slot is taken (read transactions of other clients; opened here on this thread,
+    /// the environment runs with NO_TLS): whatever the call answers, an error must have left nothing behind (C12)
+    pub fn store_ev_starved(&mut self, i: usize) -> (String, i64) {
+        let mut readers = vec![];
+        {
+            let st = self.st();
+            for _ in 0..4096 {
+                match catch_unwind(AssertUnwindSafe(|| st.read_txn())) {
+                    Ok(Ok(t)) => readers.push(t),
+                    _ => break,
+                }
+            }
+        }
+        let ev = self.u.ev(i);
+        let r = {
+            let st = self.st();
+            catch_unwind(AssertUnwindSafe(|| st.store_event(ev)))
+        };
+        // SAFETY of lifetimes: the read transactions borrow the store; they are dropped before anything else happens
+        drop(readers);
+        match r {
+            Ok(Ok(off)) => {
+                self.offs.push((off, i));
+                self.take_refs(off, i);
+                ("ok".into(), off as i64)
+            }
+            Ok(Err(e)) => (classify(&e), -1),
+            Err(_) => ("panic".into(), -1),
+        }
+    }
+
     /// Resubmission of a stored event as ANOTHER valid copy: same id (the id does not cover the signature, and BIP-340
     /// signing is randomised), other signature bytes.  It is the same event: the store answers as for any resubmission
     /// and keeps the copy it has.  Only issued while the event is retrievable (otherwise the call is skipped).
